@@ -93,7 +93,41 @@ def has(facts, atom, pol=True):
         return True
     if atom.startswith("(") and atom.endswith(" == 0)") and (atom[1:-6], not pol) in facts:
         return True
-    return ("(%s == 0)" % atom, not pol) in facts
+    if ("(%s == 0)" % atom, not pol) in facts:
+        return True
+    # a relational atom is the same fact written with its operands swapped, or as the negation of the complementary relation:
+    # (a < b)  ==  (b > a)  ==  !(a >= b)  ==  !(b <= a)
+    sp = _split_rel(atom)
+    if sp:
+        l, op, r = sp
+        for (a2, p2) in (("(%s %s %s)" % (r, _MIRROR[op], l), pol), ("(%s %s %s)" % (l, _NEG[op], r), not pol),
+                         ("(%s %s %s)" % (r, _MIRROR[_NEG[op]], l), not pol)):
+            if (a2, p2) in facts:
+                return True
+    return False
+
+
+_MIRROR = {"==": "==", "!=": "!=", "<": ">", ">": "<", "<=": ">=", ">=": "<="}
+_NEG = {"==": "!=", "!=": "==", "<": ">=", ">": "<=", "<=": ">", ">=": "<"}
+
+
+def _split_rel(atom):
+    """'(L op R)' with a relational op at the top level -> (L, op, R); None otherwise."""
+    if not (atom.startswith("(") and atom.endswith(")")):
+        return None
+    body = atom[1:-1]
+    depth = 0
+    toks = body.split(" ")
+    pos = 0
+    for i, t in enumerate(toks):
+        if depth == 0 and t in _MIRROR and 0 < i < len(toks) - 1:
+            l = " ".join(toks[:i])
+            r = " ".join(toks[i + 1:])
+            if l.count("(") == l.count(")") and r.count("(") == r.count(")"):
+                return (l, t, r)
+            return None
+        depth += t.count("(") - t.count(")")
+    return None
 
 
 def guard_retvals(fn, atom, pol):
